@@ -35,6 +35,7 @@
 #include "llvm/Transforms/Scalar/InstSimplifyPass.h"
 #include "llvm/Transforms/Scalar/SCCP.h"
 #include "llvm/Transforms/Scalar/JumpThreading.h"
+#include "llvm/Transforms/Scalar/SROA.h"
 #include "llvm/Transforms/Utils/Local.h"
 #include "llvm/Transforms/Utils/Mem2Reg.h"
 #include "llvm/Transforms/Utils/UnrollLoop.h"
@@ -265,6 +266,33 @@ int main(int argc, char **argv) {
     else if (!hasLoop(F) && varLenMemOnParam(F))
       chosen[&F] = "M loop-free helper with a variable-length memcpy/memset on a parameter";
   }
+  // (A) hardware probes: internal helpers that contain inline assembly (CPUID / XGETBV wrappers), and internal
+  // helpers that call such a helper, are inlined so that the probe is one function again
+  {
+    bool grewA = true;
+    while (grewA) {
+      grewA = false;
+      for (Function &F : *M) {
+        if (F.isDeclaration() || !F.hasLocalLinkage() || selfRecursive(F) || chosen.count(&F)) continue;
+        bool direct_use = false;
+        for (User *U : F.users())
+          if (auto *CB = dyn_cast<CallBase>(U))
+            if (CB->getCalledFunction() == &F) direct_use = true;
+        if (!direct_use) continue;
+        bool hit = false;
+        for (Instruction &I : instructions(F))
+          if (auto *CB = dyn_cast<CallBase>(&I)) {
+            if (CB->isInlineAsm()) hit = true;
+            else if (Function *C = CB->getCalledFunction())
+              if (chosen.count(C) && chosen[C][0] == 'A') hit = true;
+          }
+        if (hit) {
+          chosen[&F] = "A helper of a hardware probe (inline assembly inside)";
+          grewA = true;
+        }
+      }
+    }
+  }
   std::set<Function *> receivers;
   std::set<std::string> chosenNames;
   for (auto &kv : chosen) chosenNames.insert(std::string(kv.first->getName()));
@@ -301,9 +329,13 @@ int main(int argc, char **argv) {
               if (CB->getCalledFunction() == R && receivers.insert(CB->getFunction()).second) grew = true;
     }
     for (Function *R : receivers) recvNames.insert(std::string(R->getName()));
-    ModulePassManager MPM;
-    MPM.addPass(AlwaysInlinerPass(/*InsertLifetime=*/false));
-    MPM.run(*M, MAM);      // also deletes always-inline internal functions that became dead
+    for (int round = 0; round < 4; ++round) {
+      ModulePassManager MPM;
+      MPM.addPass(AlwaysInlinerPass(/*InsertLifetime=*/false));
+      MPM.run(*M, MAM);      // also deletes always-inline internal functions that became dead
+      MAM.clear();
+      FAM.clear();
+    }
     for (const std::string &N : chosenNames)
       if (Function *F = M->getFunction(N))
         if (F->use_empty()) {
@@ -348,6 +380,7 @@ int main(int argc, char **argv) {
     Function *R = M->getFunction(N);
     if (!R || R->isDeclaration()) continue;
     FunctionPassManager FPM;
+    FPM.addPass(SROAPass());       // an inlined helper's struct out-parameter becomes scalars
     FPM.addPass(InstSimplifyPass());
     FPM.run(*R, FAM);
     bool changed = true;
